@@ -469,6 +469,8 @@ impl TableStore {
     }
 
     fn add_head(&self, table: &Arc<ReadonlyTable>) -> TableStoreResult<()> {
+        #[cfg(jj_vcs_jj_verif)]
+        let _verif = crate::verif_hooks::scope("table.add_head", &table.name);
         std::fs::write(self.dir.join("heads").join(&table.name), "")
             .map_err(TableStoreError::SaveHeads)
     }
@@ -478,6 +480,8 @@ impl TableStore {
         // that we're on a distributed file system where the locking
         // doesn't work. We'll probably end up with two current
         // heads. We'll detect that next time we load the table.
+        #[cfg(jj_vcs_jj_verif)]
+        let _verif = crate::verif_hooks::scope("table.remove_head", &table.name);
         std::fs::remove_file(self.dir.join("heads").join(&table.name)).ok();
     }
 
@@ -508,6 +512,8 @@ impl TableStore {
 
     fn get_head_tables(&self) -> TableStoreResult<Vec<Arc<ReadonlyTable>>> {
         let mut tables = vec![];
+        #[cfg(jj_vcs_jj_verif)]
+        let _verif = crate::verif_hooks::scope("table.read_heads", &self.dir.display());
         for head_entry in
             std::fs::read_dir(self.dir.join("heads")).map_err(TableStoreError::LoadHeads)?
         {
